@@ -126,8 +126,8 @@ def fix_arg(fn, arg):
     ops = []
     for o in arg[1]:
         t = o[1]
-        if t == 1: o = [o[0], 1, o[2], [fc(c) for c in o[3]]]
-        elif t == 2: o = [o[0], 2, o[2], [[fc(c) for c in f] for f in o[3]]]
+        if t == 1: o = [o[0], 1, o[2], [fc(c) for c in o[3]]] + list(o[4:5])
+        elif t == 2: o = [o[0], 2, o[2], [[fc(c) for c in f] for f in o[3]]] + list(o[4:5])
         elif t == 3: o = [o[0], 3, o[2], [fc(c) for c in o[3]]]
         ops.append(o)
     return [arg[0], ops]
@@ -185,52 +185,150 @@ def _items(items):
 def _macros_kw(m):
     return {} if not m else {'macros': [(S(k), S(v)) for k, v in m[0]]}
 
+class Ctx(list):
+    """per-history context: the live readers (list items) and, lazily, a long-lived database"""
+    env = None
+
+_REC = {}
+def _rec_parser():
+    """a subclass of the BibTeX Parser that remembers its instances, so that the macro table of a reader
+    created inside pybtex.database.parse_string/parse_file/parse_bytes can be observed"""
+    from pybtex.database.input import bibtex as bt
+    if _REC.get('base') is not bt.Parser:
+        class Rec(bt.Parser):
+            made = []
+            def __init__(self, *a, **k):
+                bt.Parser.__init__(self, *a, **k)
+                Rec.made.append(self)
+        _REC['base'] = bt.Parser; _REC['cls'] = Rec
+    return _REC['cls']
+
+def _implicit_ep(o, n):
+    if len(o) > 4:
+        return o[4] % n
+    h = len(sx(o))
+    return h % n if h % 3 == 0 else 0
+
+def _feed(p, text, ep, tmp):
+    """one file into the live reader p through entry point ep"""
+    if ep == 0:
+        p.parse_string(text)
+    elif ep == 3:
+        p.parse_bytes(text.encode('utf-8'))
+    else:
+        n = os.path.join(tmp(), 'f%d.bib' % len(os.listdir(tmp())))
+        with open(n, 'w', encoding='utf-8') as fh:
+            fh.write(text)
+        if ep == 1:
+            p.parse_file(n)
+        else:
+            p.parse_files([n])
+
+ENTRY_POINTS = ['Parser.parse_string', 'Parser.parse_file', 'Parser.parse_files', 'Parser.parse_bytes',
+                'pybtex.database.parse_string', 'pybtex.database.parse_file', 'pybtex.database.parse_bytes']
+OPAQUE_NAMES = ['db.to_string(bibtex)', 'db.to_string(yaml)', 'db.to_string(bibtexml)', 'parse_string(yaml)', 'parse_string(bibtexml)',
+                'format_from_string(unsrt, latex)', 'format_from_string(plain, text)', 'alpha.format_bibliography(db) + html back end',
+                'pybtex.database.parse_string(text, bibtex)']
+
+def _opaque(ctx, k):
+    import pybtex
+    from pybtex.database import parse_string
+    if ctx.env is None:
+        ctx.env = _Env(light=True)
+    env = ctx.env
+    n0 = len(env.modified)
+    k = k % len(OPAQUE_NAMES)
+    if k <= 2:
+        f = ('bibtex', 'yaml', 'bibtexml')[k]
+        r = env.db.to_string(f); env.guard('to_string(%r)' % f)
+    elif k <= 4:
+        f = ('yaml', 'bibtexml')[k - 3]
+        r = _db_snapshot(parse_string(env.texts[f], f))
+    elif k == 5:
+        r = pybtex.format_from_string(R_BIB, style='unsrt', output_backend='latex')
+    elif k == 6:
+        r = pybtex.format_from_string(R_BIB, style='plain', output_backend='text')
+    elif k == 7:
+        r = _r_format_py_db(env)
+    else:
+        r = _db_snapshot(parse_string(R_BIB, 'bibtex'))
+    return [7, _dg(r), 1 if len(env.modified) > n0 else 0]
+
 def _exec(readers, o, use_files):
-    import pybtex.errors as E
+    import pybtex.errors as E, pybtex.database as D
     from pybtex.database.input import bibtex as bt
     from pybtex.bibtex import builtins as B
     t = o[1]
-    if t == 0:
-        readers.append(bt.Parser(**_macros_kw(o[2])))
-        return [1, len(readers) - 1]
-    if t == 1:
-        p = readers[o[2]]
-        p.parse_string(render(o[3]))
-        return _snap(p)
-    if t == 2:
-        p = bt.Parser(**_macros_kw(o[2]))
-        if use_files and o[3]:
-            d = tempfile.mkdtemp(prefix='c18_')
-            try:
+    tmpd = []
+    def tmp():
+        if not tmpd:
+            tmpd.append(tempfile.mkdtemp(prefix='c18_'))
+        return tmpd[0]
+    try:
+        if t == 0:
+            readers.append(bt.Parser(**_macros_kw(o[2])))
+            return [1, len(readers) - 1]
+        if t == 1:
+            p = readers[o[2]]
+            _feed(p, render(o[3]), _implicit_ep(o, 4), tmp)
+            return _snap(p)
+        if t == 2:
+            ep = _implicit_ep(o, 7)
+            kw = _macros_kw(o[2])
+            texts = [render(f) for f in o[3]]
+            if ep >= 4 and texts:
+                # the first file through the module-level function (which builds the reader), the rest into that reader
+                Rec = _rec_parser()
+                del Rec.made[:]
+                try:
+                    if ep == 4:
+                        D.parse_string(texts[0], Rec, **kw)
+                    elif ep == 6:
+                        D.parse_bytes(texts[0].encode('utf-8'), Rec, **kw)
+                    else:
+                        n = os.path.join(tmp(), 'first.bib')
+                        with open(n, 'w', encoding='utf-8') as fh:
+                            fh.write(texts[0])
+                        D.parse_file(n, Rec, **kw)
+                finally:
+                    p = Rec.made[-1] if Rec.made else None
+                for x in texts[1:]:
+                    p.parse_string(x)
+            elif ep == 2 and texts:
+                p = bt.Parser(**kw)
                 names = []
-                for i, f in enumerate(o[3]):
-                    n = os.path.join(d, 'f%d.bib' % i)
+                for i, x in enumerate(texts):
+                    n = os.path.join(tmp(), 'g%d.bib' % i)
                     with open(n, 'w', encoding='utf-8') as fh:
-                        fh.write(render(f))
+                        fh.write(x)
                     names.append(n)
                 p.parse_files(names)
-            finally:
-                shutil.rmtree(d, ignore_errors=True)
-        else:
-            for f in o[3]:
-                p.parse_string(render(f))
-        return _snap(p)
-    if t == 3:
-        kw = {} if not o[2] else {'macros': readers[o[2][0]].macros}
-        return [3, _items(list(bt.LowLevelParser(render(o[3]), **kw)))]
-    if t == 4:
-        return [4, B._format_name(S(o[2]), o[3], S(o[4]))]
-    if t == 5:
-        from pybtex.bibtex.interpreter import Interpreter
-        it = Interpreter(None, None)
-        outs = []
-        for k in o[2]:
-            it.push(S(k[0])); it.push(k[1]); it.push(S(k[2]))
-            it.vars['format.name$'].execute(it)
-            outs.append(it.pop())
-        return [5, outs]
-    E.set_strict_mode(bool(o[2]))
-    return [0]
+            else:
+                p = bt.Parser(**kw)
+                for x in texts:
+                    _feed(p, x, ep if ep < 4 else 0, tmp)
+            return _snap(p)
+        if t == 3:
+            kw = {} if not o[2] else {'macros': readers[o[2][0]].macros}
+            return [3, _items(list(bt.LowLevelParser(render(o[3]), **kw)))]
+        if t == 4:
+            return [4, B._format_name(S(o[2]), o[3], S(o[4]))]
+        if t == 5:
+            from pybtex.bibtex.interpreter import Interpreter
+            it = Interpreter(None, None)
+            outs = []
+            for k in o[2]:
+                it.push(S(k[0])); it.push(k[1]); it.push(S(k[2]))
+                it.vars['format.name$'].execute(it)
+                outs.append(it.pop())
+            return [5, outs]
+        if t == 6:
+            E.set_strict_mode(bool(o[2]))
+            return [0]
+        return _opaque(readers, o[2])
+    finally:
+        if tmpd:
+            shutil.rmtree(tmpd[0], ignore_errors=True)
 
 def _step(readers, o, use_files):
     """one call, optionally inside errors.capture(); -> [value-or-exception, n warnings printed, captured]"""
@@ -255,7 +353,10 @@ def _step(readers, o, use_files):
         pybtex.io.stderr = old
     return [v, buf.getvalue().count('WARNING: '), cap]
 
-SELF_CONTAINED = (2, 4, 5)      # OParse, OFormatName, OBstRun: computations with explicit arguments only
+def _self_contained(o):
+    """computations with explicit arguments only: a fresh reader, a LowLevelParser without a macros
+    argument, format.name$ calls, opaque calls (writers, other readers, Python engine)"""
+    return o[1] in (2, 4, 5, 7) or (o[1] == 3 and not o[2])
 def _final():
     import pybtex.errors as E
     from pybtex.database.input import bibtex as bt
@@ -272,7 +373,8 @@ def impl_history(arg):
     cap, ops = arg[0], arg[1]
     use_files = (len(sx(ops)) % 16 == 0)
     _reset(cap)
-    readers = []
+    readers = Ctx()
+    ctxs = [readers]
     outs, modes = [], []
     for o in ops:
         modes.append(bool(E.strict))
@@ -282,15 +384,19 @@ def impl_history(arg):
     base = []
     memo = {}
     for o, strict in zip(ops, modes):
-        if o[1] in SELF_CONTAINED:
+        if _self_contained(o):
             key = (sx(o), strict)
             if key not in memo:
                 _reset(cap)
                 E.set_strict_mode(strict)
-                memo[key] = _step([], o, use_files)
+                ctxs.append(Ctx())
+                memo[key] = _step(ctxs[-1], o, use_files)
             base.append([memo[key]])
         else:
             base.append([])
+    for c in ctxs:
+        if c.env is not None:
+            c.env.close()
     _reset(None)
     return norm([outs, fin, base, _live_capacity()[0] or 0])
 
@@ -341,7 +447,11 @@ FUNCS = {
 
 # ----------------------------------------------------------------------------------------
 def _c_res(r):
-    return [1] if isinstance(r, list) and r and r[0] == 1 else r
+    if isinstance(r, list) and r and r[0] == 1:
+        return [1]
+    if isinstance(r, list) and len(r) == 2 and r[0] == 0 and isinstance(r[1], list) and r[1][:1] == [7]:
+        return [0, [0]]          # an opaque call: the model says "returns, touches nothing"; the digest is for the oracle
+    return r
 
 def _c_out(o):
     # value/exception class; number of printed warnings; captured problems by class
@@ -374,8 +484,6 @@ def _many_commas(names):
     from_parts = [p for p in S(names).split(' and ')]
     return any(p.count(',') >= 3 for p in from_parts)
 
-def _leaks_months(o):
-    return o[1] == 3 and not o[2] and any(c and c[0] == 0 for c in o[3])
 
 def oracle_all(fn, arg, out):
     """list of (kind, message)"""
@@ -400,42 +508,48 @@ def oracle_all(fn, arg, out):
     ops = arg[1]
     outs, fin, base = out[0], out[1], out[2]
     strict = True
-    leak_at = None
     seen = {}
     for i, (o, r) in enumerate(zip(ops, outs)):
-        if o[1] in SELF_CONTAINED:
-            reads_months = (o[1] == 2 and not o[2])
-            tainted = leak_at is not None and reads_months
-            key = (sx(o), strict)
+        if _self_contained(o):
+            key = (sx(o[:4] if o[1] == 2 else o), strict)     # the entry point used is not part of the computation
+            # F19: the deviating call is a _format_name / format.name$ call on a name that reports
+            # 'Too many commas'.  Whether the report happens depends on whether the call is served from
+            # the cache: same value with fewer/more reports (capture, non-strict), or -- in strict mode,
+            # where the report IS the exception -- raising on a miss and returning on a hit, in either
+            # order (miss->hit after a captured/non-strict run; hit->miss after an eviction).
             f19 = (o[1] in (4, 5)) and any(_many_commas(k[0]) for k in ([o[2:5]] if o[1] == 4 else o[2]))
             def diff(a, b):
-                if _c_out(a) == _c_out(b):
+                ca, cb = _c_out(a), _c_out(b)
+                if ca == cb:
                     return None
-                # F19: same value but fewer reports, or (strict mode) the report that a fresh state raises is swallowed
-                if f19 and (_c_out(a)[0] == _c_out(b)[0] or (_c_out(a)[0] == [1] and _c_out(b)[0][:1] == [0])):
+                if f19 and (ca[0] == cb[0] or ca[0] == [1] or cb[0] == [1]):
                     return 'F19'
                 return 'other'
-            if not tainted:
-                if key in seen:
-                    d = diff(outs[seen[key]], r)
-                    if d:
-                        fails.append(('repeat-reports' if d == 'F19' else 'repeat',
-                                      'call %d repeats call %d in the same reporting mode but gives %r instead of %r' % (i, seen[key], _c_out(r), _c_out(outs[seen[key]]))))
-                else:
-                    seen[key] = i
-                if base[i]:
-                    d = diff(base[i][0], r)
-                    if d:
-                        fails.append(('fresh-reports' if d == 'F19' else 'fresh',
-                                      'call %d gives %r, in a fresh state it gives %r' % (i, _c_out(r), _c_out(base[i][0]))))
+            if key in seen:
+                d = diff(outs[seen[key]], r)
+                if d:
+                    fails.append(('repeat-reports' if d == 'F19' else 'repeat',
+                                  'call %d repeats call %d in the same reporting mode but gives %r instead of %r' % (i, seen[key], _c_out(r), _c_out(outs[seen[key]]))))
+            else:
+                seen[key] = i
+            if base[i]:
+                d = diff(base[i][0], r)
+                if d:
+                    fails.append(('fresh-reports' if d == 'F19' else 'fresh',
+                                  'call %d gives %r, in a fresh state it gives %r' % (i, _c_out(r), _c_out(base[i][0]))))
+            if o[1] == 7:      # opaque calls: the digest of the result must repeat, the long-lived database must be untouched
+                v = r[0]
+                if v[:1] == [0] and len(v[1]) >= 3 and v[1][2]:
+                    fails.append(('db-modified', 'call %d (%s) modified the database it was given' % (i, OPAQUE_NAMES[o[2]])))
+                for ref, what in (((outs[seen[key]] if seen[key] != i else None), 'call %d' % seen[key]), ((base[i][0] if base[i] else None), 'a fresh state')):
+                    if ref is not None and ref[0] != v:
+                        fails.append(('opaque-repeat', 'call %d (%s) gives another result than %s' % (i, OPAQUE_NAMES[o[2]], what)))
         if o[1] == 6:
             strict = bool(o[2])
-        if _leaks_months(o) and leak_at is None:
-            leak_at = i
     months = {S(k): S(v) for k, v in fin[0]}
     if months != MONTHS:
         changed = sorted(set(months.items()) ^ set(MONTHS.items()))
-        fails.append(('months-lowlevel' if leak_at is not None else 'months', 'the predefined month macros were altered: %r' % (changed[:4],)))
+        fails.append(('months', 'the predefined month macros were altered: %r' % (changed[:4],)))
     if not fin[7]:
         fails.append(('capture', 'errors.captured_errors is still set after every capture() block was left'))
     if fin[1] != 'NA' and isinstance(fin[1], list):
@@ -446,7 +560,7 @@ def oracle_all(fn, arg, out):
             fails.append(('memo-inv', 'a name cache holds more than its capacity %d' % capv))
     return fails
 
-KNOWN_KINDS = {'repeat-reports': 'F19', 'fresh-reports': 'F19', 'months-lowlevel': 'F28'}
+KNOWN_KINDS = {'repeat-reports': 'F19', 'fresh-reports': 'F19'}
 
 def oracle(fn, arg, out):
     fails = oracle_all(fn, arg, out)
@@ -463,11 +577,11 @@ def _sig(fid):
         if KNOWN_KINDS.get(k) != fid:
             return False
         ops = fix_arg(2, arg)[1]
-        if fid == 'F19':   # a format.name$ call on a name with more than two commas, differing only in what is reported
-            return any(o[1] in (4, 5) and any(_many_commas(k[0]) for k in ([o[2:5]] if o[1] == 4 else o[2])) for o in ops)
-        return any(_leaks_months(o) for o in ops)   # F28: an @string read by a LowLevelParser built without a macros argument
+        # a format.name$ call on a name with more than two commas (the kinds above are only produced when
+        # the DEVIATING call itself is such a call and the deviation is in the reports / raise-vs-return)
+        return any(o[1] in (4, 5) and any(_many_commas(k[0]) for k in ([o[2:5]] if o[1] == 4 else o[2])) for o in ops)
     return pred
-KNOWN_SIGNATURES = {'F19': _sig('F19'), 'F28': _sig('F28')}
+KNOWN_SIGNATURES = {'F19': _sig('F19')}
 
 def replay_known(finding):
     p = finding.get('pinned')
@@ -483,18 +597,19 @@ def describe(fn, arg):
         return {'capacity': arg[0], 'f': {k: r for k, r in arg[1]}, 'calls': arg[2]}
     arg = fix_arg(2, arg)
     names = ['Parser(macros)', 'readers[r].parse_string', 'Parser(macros).parse_files', 'list(LowLevelParser(text[, macros=readers[r].macros]))',
-             '_format_name(names, n, format)', 'Interpreter + format.name$ calls', 'errors.set_strict_mode']
+             '_format_name(names, n, format)', 'Interpreter + format.name$ calls', 'errors.set_strict_mode', 'opaque call']
     ops = []
     for o in arg[1]:
-        d = {'call': names[min(o[1], 6)], 'inside_capture': bool(o[0])}
+        d = {'call': names[min(o[1], 7)], 'inside_capture': bool(o[0])}
         t = o[1]
         if t == 0: d['macros'] = [(S(k), S(v)) for k, v in o[2][0]] if o[2] else 'default'
-        elif t == 1: d['reader'] = o[2]; d['text'] = render(o[3])
-        elif t == 2: d['macros'] = [(S(k), S(v)) for k, v in o[2][0]] if o[2] else 'default'; d['files'] = [render(f) for f in o[3]]
+        elif t == 1: d['reader'] = o[2]; d['text'] = render(o[3]); d['entry_point'] = ENTRY_POINTS[_implicit_ep(o, 4)]
+        elif t == 2: d['macros'] = [(S(k), S(v)) for k, v in o[2][0]] if o[2] else 'default'; d['files'] = [render(f) for f in o[3]]; d['entry_point'] = ENTRY_POINTS[_implicit_ep(o, 7)]
         elif t == 3: d['macros_of_reader'] = o[2][0] if o[2] else 'default (month_names)'; d['text'] = render(o[3])
         elif t == 4: d['args'] = [S(o[2]), o[3], S(o[4])]
         elif t == 5: d['calls'] = [[S(k[0]), k[1], S(k[2])] for k in o[2]]
-        else: d['strict'] = bool(o[2])
+        elif t == 6: d['strict'] = bool(o[2])
+        else: d['what'] = OPAQUE_NAMES[o[2] % len(OPAQUE_NAMES)]
         ops.append(d)
     return {'name_cache_capacity': arg[0] or 'as shipped', 'history': ops}
 
@@ -513,8 +628,9 @@ def STR(name, *v): return [0, name, list(v)]
 def PRE(*v): return [1, list(v)]
 COMMENT, BAD = [3], [4]
 def NEWR(macros=None, c=0): return [c, 0, [] if macros is None else [macros]]
-def FEED(r, file, c=0): return [c, 1, r, file]
-def PARSE(files, macros=None, c=0): return [c, 2, [] if macros is None else [macros], files]
+def FEED(r, file, c=0, ep=None): return [c, 1, r, file] + ([] if ep is None else [ep])
+def PARSE(files, macros=None, c=0, ep=None): return [c, 2, [] if macros is None else [macros], files] + ([] if ep is None else [ep])
+def OPAQUE(k, c=0): return [c, 7, k]
 def LOWL(file, r=None, c=0): return [c, 3, [] if r is None else [r], file]
 def FNAME(names, n, fmt, c=0): return [c, 4, names, n, fmt]
 def BST(calls, c=0): return [c, 5, [list(k) for k in calls]]
@@ -537,6 +653,7 @@ def menu():
     m.append(FNAME('A B and C D', 2, '{ff }{ll}'))
     m.append(FNAME('A B', 2, '{ll}'))
     m.append(BST([('N1 L1', 1, '{ll}'), ('N2 L2', 1, '{ll}'), ('N3 L3 and a, b, c, d', 2, '{ll}')]))
+    m.append(OPAQUE(0)); m.append(OPAQUE(7))
     m.append(PARSE([[ENT('misc', 'k', ('note', [M_('m')])), BAD, COMMENT, ENT('misc', 'k', ('note', [L_('again')]))]], macros=[['M', 'given'], ['m', 'twice']]))
     return m
 
@@ -598,14 +715,16 @@ def rand_history(rng, n):
             ops.append(FNAME(*rand_nkey(rng, fresh), c=c))
         elif r < 0.87:
             ops.append(BST([rand_nkey(rng, fresh) for _ in range(rng.randint(1, 5))], c=c))
-        elif r < 0.95:
+        elif r < 0.93:
             ops.append(STRICT(rng.random() < 0.5))
+        elif r < 0.97:
+            ops.append(OPAQUE(rng.randrange(9), c=c))
         elif ops:
             ops.append(rng.choice(ops))       # an exact repetition
     return ops
 
 PIN_F19 = [0, [FNAME('a, b, c, d', 1, '{ll}', c=1), FNAME('a, b, c, d', 1, '{ll}', c=1)]]
-PIN_F27 = [0, [LOWL([STR('jan', L_('X'))])]]
+PIN_F28 = [0, [LOWL([STR('jan', L_('X'))])]]
 
 def gen(tier, rng):
     # ---- fn 1: exhaustive key sequences over 3 keys (one of which raises, one crashes), capacities 0..3
@@ -625,7 +744,7 @@ def gen(tier, rng):
         yield ('memo_random', 1, [cap, tab, ks])
     # ---- fn 2: pinned inputs (every defect input of this property)
     yield ('pinned', 2, PIN_F19)
-    yield ('pinned', 2, PIN_F27)
+    yield ('pinned', 2, PIN_F28)
     yield ('pinned', 2, [0, [FNAME('a, b, c, d', 1, '{ll}'), FNAME('a, b, c, d', 1, '{ll}', c=1), STRICT(False), FNAME('a, b, c, d', 1, '{ll}')]])
     yield ('pinned', 2, [2, [LOWL([STR('jan', L_('X')), STR('foo', L_('bar'))]), PARSE([[ENT('a', 'k', ('month', [M_('jan')]), ('note', [M_('foo')]))]], c=1)]])
     # more fresh format.name$ calls than the shipped caches hold, a probe before, between and after
@@ -641,7 +760,7 @@ def gen(tier, rng):
             full.append(with_capture(o))
     full += [STRICT(False), STRICT(True)]
     # a smaller pool for the longest histories: the calls that write some cell, and the probes that read it
-    core_pool = [full[i] for i in range(len(full)) if not full[i][0] or full[i][1] in (2, 4)]
+    core_pool = [full[i] for i in range(len(full)) if (not full[i][0] or full[i][1] in (2, 4)) and full[i][1] != 7]
     if tier == 'quick':
         plan = [(1, full, 1), (2, full, 1), (3, core_pool, 1)]
     else:
@@ -650,16 +769,31 @@ def gen(tier, rng):
         for j, h in enumerate(itertools.product(range(len(pool)), repeat=n)):
             if j % stride == 0:
                 yield ('history_exhaustive', 2, [2, [pool[i] for i in h]])
+    # ---- fn 2: an EARLIER reader defines / redefines macros through every entry point, then an independent
+    #      probe parse (through every entry point) that uses a month, an upper-case month and the defined name
+    definers = [[STR('m', L_('V'))], [STR('jan', L_('X')), STR('m', M_('jan'))], [STR('JAN', L_('Y')), STR('Feb', L_('Z')), PRE(M_('feb'))]]
+    def probes(ep):
+        return [PARSE([[ENT('misc', 'k', ('month', [M_('jan')]), ('note', [M_('FEB'), L_(' '), M_('dec')]))]], ep=ep),
+                PARSE([[ENT('misc', 'k', ('note', [M_('m')]))]], ep=ep, c=1)]
+    for di, d in enumerate(definers):
+        for ep_p in range(7):
+            for ep_d in range(7):
+                yield ('entry_points', 2, [2, [PARSE([d], ep=ep_d, c=(ep_d + di) % 2)] + probes(ep_p)])
+                yield ('entry_points', 2, [2, [PARSE([d, d], ep=ep_d, macros=[['dec', 'D']])] + probes(ep_p)])
+            for ep_d in range(4):
+                yield ('entry_points', 2, [2, [NEWR(), FEED(0, d, ep=ep_d, c=(ep_d + di) % 2)] + probes(ep_p) + [FEED(0, d, ep=ep_d)]])
+            yield ('entry_points', 2, [2, [LOWL(d)] + probes(ep_p) + [LOWL(d, c=1)]])
+            yield ('entry_points', 2, [2, [NEWR(), LOWL(d, r=0)] + probes(ep_p)])
     # ---- fn 2: random histories
     for i in range(1000 if tier == 'quick' else 6000):
         cap = rng.choice([1, 2, 3, 4, 8, 0])
         yield ('history_random', 2, [cap, rand_history(rng, rng.choice([3, 6, 10, 20, 40]))])
 
 RULE = ('fn 1 (memoize): every key sequence up to the length bound over 4 keys (two returning, one raising a pybtex error, one raising a foreign exception) x capacities 0..3, plus random runs up to capacity 1024 with more distinct keys than the capacity; '
-        'fn 2 (API histories): pinned defect inputs, a history with 1100 fresh format.name$ calls at the shipped capacity, every history of length <= 2 over a menu of 13 calls (each also inside errors.capture(), plus set_strict_mode on/off; 28 in all) and of length 3 (thorough: also every seventh one of length 4) over the 22 of them that are not capture() variants of state-writing calls, cache capacity 2 (thorough: length 3 over all 28), and random histories up to length 40; every self-contained call is also re-run alone in a reset process state. '
+        'fn 2 (API histories): pinned defect inputs, a history with 1100 fresh format.name$ calls at the shipped capacity, every history of length <= 2 over a menu of 15 calls (incl. two opaque writer/engine calls; each also inside errors.capture(), plus set_strict_mode on/off; 31 in all) and of length 3 (thorough: also every seventh one of length 4) over the 22 of them that are not capture() variants of state-writing calls, cache capacity 2 (thorough: length 3 over all 31), a stream where an earlier reader defines/redefines macros through each of the 7 parse entry points (and a live reader, and LowLevelParser) before independent probe parses through each entry point, and random histories up to length 40; every self-contained call is also re-run alone in a reset process state. '
         'distinct = distinct (function, argument); non-trivial = more distinct keys than the capacity (fn 1) / at least two kinds of call (fn 2)')
-EXHAUSTIVE = {'quick': 'memoize: all key sequences of length <= 6 over 4 keys x capacities 0..3; API histories: all sequences of length <= 2 over the 28-call menu, all of length 3 over its 22-call core',
-              'thorough': 'memoize: all key sequences of length <= 7 over 4 keys x capacities 0..3; API histories: all sequences of length <= 3 over the 28-call menu, every seventh one of length 4 over its 22-call core'}
+EXHAUSTIVE = {'quick': 'memoize: all key sequences of length <= 6 over 4 keys x capacities 0..3; API histories: all sequences of length <= 2 over the 31-call menu, all of length 3 over its 22-call core',
+              'thorough': 'memoize: all key sequences of length <= 7 over 4 keys x capacities 0..3; API histories: all sequences of length <= 3 over the 31-call menu, every seventh one of length 4 over its 22-call core'}
 TRUSTED_BASE = ['modelled (not verified) code: pybtex/utils.py memoize; pybtex/errors.py; pybtex/bibtex/builtins.py _split_names/_format_name/format.name$; pybtex/database/input/bibtex.py month_names, LowLevelParser command level, Parser; pybtex/database/input/__init__.py BaseParser; BibliographyData.add_entry',
                 'the lexical level of .bib files is not modelled: the harness renders tokenised commands to text (harness/props/c18.py render)',
                 'format_bibtex_name (C11) enters the model as a table measured from the real function for the pairs each history reaches']
@@ -716,9 +850,26 @@ def _db_snapshot(db):
     w = getattr(db, 'wanted_entries', None)
     return repr((ents, list(db.preamble_list), sorted(w) if w is not None else None, sorted(db.citations), db.min_crossrefs))
 
+class _LazyTexts(dict):
+    def __init__(self, env):
+        self.env = env
+    def __missing__(self, f):
+        self[f] = self.env.db.to_string(f); self.env.guard('to_string(%r)' % f)
+        return self[f]
+
 class _Env(object):
-    def __init__(self):
+    def __init__(self, light=False):
         from pybtex.database import parse_string
+        self.dir = None
+        self.db = parse_string(R_BIB, 'bibtex')
+        self.snap0 = _db_snapshot(self.db)
+        self.modified = []
+        self.texts = _LazyTexts(self)
+        self.fresh = 0
+        if light:
+            return
+        for f in ('bibtex', 'yaml', 'bibtexml'):
+            self.texts[f]
         self.dir = tempfile.mkdtemp(prefix='c18_real_')
         for name, src in (('small', R_BST), ('bad', R_BST_BAD), ('nomacro', R_BST.replace('MACRO {jan} {"January"}\n', ''))):
             with open(os.path.join(self.dir, name + '.bst'), 'w') as f:
@@ -726,17 +877,11 @@ class _Env(object):
         self.bst = os.path.join(self.dir, 'small')
         self.badbst = os.path.join(self.dir, 'bad')
         self.nomacro = os.path.join(self.dir, 'nomacro')
-        self.db = parse_string(R_BIB, 'bibtex')
-        self.snap0 = _db_snapshot(self.db)
-        self.modified = []
-        self.texts = {}
-        for f in ('bibtex', 'yaml', 'bibtexml'):
-            self.texts[f] = self.db.to_string(f); self.guard('to_string(%r)' % f)
-        self.fresh = 0
         d = os.path.join(REPO, 'tests', 'data')
         self.unsrt = os.path.join(d, 'unsrt') if os.path.exists(os.path.join(d, 'unsrt.bst')) else None
     def close(self):
-        shutil.rmtree(self.dir, ignore_errors=True)
+        if self.dir:
+            shutil.rmtree(self.dir, ignore_errors=True)
     def guard(self, what):
         if _db_snapshot(self.db) != self.snap0:
             self.modified.append(what)
